@@ -12,7 +12,7 @@ use cooklang::{CooklangParser, ScalableRecipe, ScalableValue, ScaledRecipe};
 
 /// Rewrites a JSON text as produced by serde_json (no insignificant spaces are assumed, but tolerated):
 /// strings and keys → quoted code-point lists, floats → `#bits`, integers unchanged; order preserved.
-fn canon_json(src: &str) -> Result<String, String> {
+pub(crate) fn canon_json(src: &str) -> Result<String, String> {
     let b: Vec<char> = src.chars().collect();
     let mut i = 0usize;
     let mut out = String::with_capacity(src.len() * 2);
@@ -79,7 +79,7 @@ fn jv(v: &serde_yaml::Value) -> Result<String, String> {
         Y::Tagged(_) => return Err("tagged YAML value".into()),
     })
 }
-fn kvs(m: &serde_yaml::Mapping) -> Result<String, String> {
+pub(crate) fn kvs(m: &serde_yaml::Mapping) -> Result<String, String> {
     let mut o = String::from("(");
     for (k, v) in m {
         let k = k.as_str().ok_or_else(|| format!("non-string YAML key {k:?}"))?;
@@ -102,14 +102,14 @@ fn num_finite(n: &Number) -> bool { match n { Number::Regular(v) => v.is_finite(
 fn value_finite(v: &Value) -> bool { match v { Value::Number(n) => num_finite(n), Value::Range { start, end } => num_finite(start) && num_finite(end), Value::Text(_) => true } }
 fn sv_finite(v: &ScalableValue) -> bool { match v { ScalableValue::Fixed(v) | ScalableValue::Linear(v) => value_finite(v) } }
 
-fn scalable_finite(r: &ScalableRecipe) -> bool {
+pub(crate) fn scalable_finite(r: &ScalableRecipe) -> bool {
     r.ingredients.iter().all(|i| i.quantity.as_ref().map_or(true, |q| sv_finite(q.value())))
         && r.cookware.iter().all(|i| i.quantity.as_ref().map_or(true, sv_finite))
         && r.timers.iter().all(|i| i.quantity.as_ref().map_or(true, |q| sv_finite(q.value())))
         && r.inline_quantities.iter().all(|q| value_finite(q.value()))
         && !r.metadata.map.iter().any(|(k, v)| yaml_nonfinite(k) || yaml_nonfinite(v))
 }
-fn scaled_finite(r: &ScaledRecipe) -> bool {
+pub(crate) fn scaled_finite(r: &ScaledRecipe) -> bool {
     r.ingredients.iter().all(|i| i.quantity.as_ref().map_or(true, |q| value_finite(q.value())))
         && r.cookware.iter().all(|i| i.quantity.as_ref().map_or(true, value_finite))
         && r.timers.iter().all(|i| i.quantity.as_ref().map_or(true, |q| value_finite(q.value())))
@@ -238,6 +238,41 @@ fn one(ctx: &mut Ctx, parser: &CooklangParser, rng: &mut Rng, input: &str) {
     }
     check_json(ctx, &Stats { what: "scalable", tainted }, &desc, &r, fin, op, Some(&|a: &ScalableRecipe, b: &ScalableRecipe| a == b));
 
+    // the model of `==` (Side/SerdeEq.lean, op `eq scalable`): the recipe against what is read back, and against near copies
+    // (a number spelled as a fraction / as a decimal, another value, name, unit, lock, modifier, metadata value)
+    {
+        let full_of = |x: &ScalableRecipe| -> Option<String> {
+            let m = kvs(&x.metadata.map).ok()?;
+            Some(format!("( full {m} {} {} )", recipe_sexp::opt(x.servings(), |s| recipe_sexp::list(s, |n| n.to_string())), recipe_sexp::scalable_recipe(x)))
+        };
+        // (only for recipes inside the property's premise and the model's metadata class: finite numbers, JSON-representable metadata)
+        if let Some(fa) = full_of(&r).filter(|_| fin && !tainted) {
+            if let Ok(Ok(js)) = guarded(|| serde_json::to_string(&r)) {
+                if let Ok(Ok(back)) = guarded(|| serde_json::from_str::<ScalableRecipe>(&js)) {
+                    if let Some(fb) = full_of(&back) {
+                        let e = back == r;
+                        ctx.count(if e { "eq:read-back:true" } else { "eq:read-back:false" });
+                        ctx.case(format!("eq scalable {fb} {fa}"), e.to_string(), true, format!("{desc}: read back == original"));
+                    }
+                }
+            }
+            const NEAR: &[(&str, &str)] = &[("1/2", "0.5"), ("1 1/2", "1.5"), ("3/4", "0.75"), ("0.5", "1/2"), ("2", "3"), ("flour", "flower"), ("%g", "%kg"), ("{1", "{=1"), ("@", "@?"), ("#", "#?"), ("min", "h"), ("(note", "(nota"), ("title:", "titel:"), (": x", ": y"), ("= ", "= X"), ("|alias", "|alia"), ("1", "1.0"), ("0", "0.0")];
+            let k = rng.below(NEAR.len());
+            for j in 0..NEAR.len() {
+                let (from, to) = NEAR[(k + j) % NEAR.len()];
+                let Some(pos) = input.rfind(from) else { continue };
+                let near = format!("{}{}{}", &input[..pos], to, &input[pos + from.len()..]);
+                if let Ok(Ok((r2, _))) = guarded(|| parser.parse(&near).into_result()) {
+                    if let Some(fb) = full_of(&r2).filter(|_| scalable_finite(&r2) && !meta_tainted(&r2.metadata.map)) {
+                        let e = r2 == r;
+                        ctx.count(if e { "eq:near-copy:true" } else { "eq:near-copy:false" });
+                        ctx.case(format!("eq scalable {fb} {fa}"), e.to_string(), true, format!("{desc} == {near:?}"));
+                    }
+                }
+                break;
+            }
+        }
+    }
     // scaled / converted variants (ScalableRecipe is not Clone: parse again)
     // "arbitrary factors": zero and negative ones are accepted by scale() and give finite recipes
     let factor = match rng.below(9) { 0 => 1.0, 1 => 2.0, 2 => 0.5, 3 => 1.0 / 3.0, 4 => 0.0, 5 => -1.5, 6 => -(rng.unit_f64() * 3.0 * 100.0).round() / 100.0, _ => (rng.unit_f64() * 6.0 * 1000.0).round() / 1000.0 };
